@@ -89,6 +89,13 @@ def universe(impl_self_types, full=True):
     tys += [f.format(u) for f in uptr for u in UNSIZED]
     tys += ["Option<%s>" % f.format(u) for f in uptr[:4] for u in UNSIZED]
     tys += [f.format("Result<%s, %s>" % (a, b)) for f in core[:6] for a in b6 for b in b6]
+    # types whose id is produced by the *derive macro* (fixtures defined in the witness crate itself, see source())
+    tys += ["fx::D0", "fx::inner::D0", "fx::Renamed"]
+    tys += ["fx::D1<%s>" % a for a in b6] + ["fx::inner::D1<%s>" % a for a in b6]
+    tys += ["fx::%s<%s, %s>" % (n, a, b) for n in ("D2", "E2", "inner::D2") for a in b4 for b in b4]
+    tys += ["fx::D3<%s, %s, %s>" % (a, b, c) for a in b4[:3] for b in b4[:3] for c in b4[:3]]
+    tys += ["fx::D1<fx::D1<u8>>", "fx::D1<fx::D2<u8, bool>>", "fx::D2<fx::D1<u8>, bool>", "fx::D2<u8, fx::D1<bool>>", "Vec<fx::D1<u8>>", "fx::D1<Vec<u8>>",
+            "Option<fx::D0>", "fx::D1<Option<u8>>", "(fx::D0, fx::inner::D0)", "(fx::inner::D0, fx::D0)"]
     seen, out = set(), []
     for t in tys:
         if t not in seen:
@@ -104,6 +111,24 @@ def source(tys):
     w("#![allow(long_running_const_eval, clippy::all, dead_code, unused)]")
     w("use qbice_stable_type_id::{Identifiable, StableTypeID};")
     w("const fn id(name: &'static str) -> u128 { StableTypeID::from_unique_type_name(name).as_u128() }")
+    w("""/// fixture types whose ids come from #[derive(Identifiable)]: same names in two modules, one / two / three parameters
+pub mod fx {
+    use core::marker::PhantomData;
+    use qbice_stable_type_id::Identifiable;
+    #[derive(Identifiable)] #[stable_type_id_crate(::qbice_stable_type_id)] pub struct D0;
+    #[derive(Identifiable)] #[stable_type_id_crate(::qbice_stable_type_id)] pub struct Renamed;
+    #[derive(Identifiable)] #[stable_type_id_crate(::qbice_stable_type_id)] pub struct D1<A>(pub PhantomData<A>);
+    #[derive(Identifiable)] #[stable_type_id_crate(::qbice_stable_type_id)] pub struct D2<A, B>(pub PhantomData<(A, B)>);
+    #[derive(Identifiable)] #[stable_type_id_crate(::qbice_stable_type_id)] pub enum E2<A, B> { L(PhantomData<A>), R(PhantomData<B>) }
+    #[derive(Identifiable)] #[stable_type_id_crate(::qbice_stable_type_id)] pub struct D3<A, B, C>(pub PhantomData<(A, B, C)>);
+    pub mod inner {
+        use core::marker::PhantomData;
+        use qbice_stable_type_id::Identifiable;
+        #[derive(Identifiable)] #[stable_type_id_crate(::qbice_stable_type_id)] pub struct D0;
+        #[derive(Identifiable)] #[stable_type_id_crate(::qbice_stable_type_id)] pub struct D1<A>(pub PhantomData<A>);
+        #[derive(Identifiable)] #[stable_type_id_crate(::qbice_stable_type_id)] pub struct D2<A, B>(pub PhantomData<(A, B)>);
+    }
+}""")
     w("const N: usize = %d;" % len(tys))
     w("const RAW: [u128; N] = [")
     for t in tys:
